@@ -118,14 +118,14 @@ Definition fault_fires_check : bool :=
 Lemma fault_fires : fault_fires_check = true.
 Proof. vm_compute. reflexivity. Qed.
 
-(* ---- known defect (finding C32-expunged-object-with-key-switch-left-detached) ---- *)
-(* the claim "an object added in the transaction is transient again after the failed flush was rolled
-   back" is false: new(1,0); flush; o.id = 2; flush failing in after_flush_postexec; rollback leaves
-   the object with identity key 1 (detached) although no row 1 was ever committed *)
+(* ---- repaired defect (finding C32-expunged-object-with-key-switch-left-detached, commit 6d10bc4) ---- *)
+(* new(1,0); flush; o.id = 2; flush failing in after_flush_postexec; rollback: the object, added in the
+   rolled back transaction, is transient again (before the repair _restore_snapshot gave it identity key 1
+   back: "detached" with the key of a row that never was committed) *)
 Definition w_d7 : list fop :=
   [Plain (ONew 1 0); Plain OFlush; Plain (OSetPK 0 2); Faulty FPost; Plain ORollback].
 Definition all_keyless (st : sess) : bool := forallb (fun o => is_none (okey (objs st o))) (all_objs st).
-Theorem added_objects_transient_refuted :
-  fst (finalf false w_d7) = Ok /\ all_keyless (snd (finalf false w_d7)) = false /\
-  okey (objs (snd (finalf false w_d7)) 0%nat) = Some 1 /\ committed (snd (finalf false w_d7)) 1 = None.
+Theorem added_object_transient_again :
+  fst (finalf false w_d7) = Ok /\ all_keyless (snd (finalf false w_d7)) = true /\
+  oatt (objs (snd (finalf false w_d7)) 0%nat) = false /\ committed (snd (finalf false w_d7)) 1 = None.
 Proof. vm_compute. repeat split; reflexivity. Qed.
